@@ -15,6 +15,18 @@ impl RngCore for Fixed {
     fn try_fill_bytes(&mut self, d: &mut [u8]) -> Result<(), Error> { for x in d.iter_mut() { self.0 = self.0.wrapping_mul(31).wrapping_add(7); *x = self.0; } Ok(()) }
 }
 impl CryptoRng for Fixed {}
+// an RNG that fails: before writing anything (0) or after writing `n` bytes
+struct Failing(usize);
+impl RngCore for Failing {
+    fn next_u32(&mut self) -> u32 { unimplemented!() }
+    fn next_u64(&mut self) -> u64 { unimplemented!() }
+    fn fill_bytes(&mut self, _d: &mut [u8]) { unimplemented!() }
+    fn try_fill_bytes(&mut self, d: &mut [u8]) -> Result<(), Error> {
+        for x in d.iter_mut().take(self.0) { *x = 0x77; }
+        Err(Error::from(core::num::NonZeroU32::new(Error::CUSTOM_START + 1).unwrap()))
+    }
+}
+impl CryptoRng for Failing {}
 
 macro_rules! digest_set {
     ($m:ident, $name:expr) => {{
@@ -40,6 +52,12 @@ macro_rules! digest_set {
             let s = sk.try_sign_with_rng(&mut Fixed((i % 251) as u8), &m, b"").unwrap();
             h.update(&s);
             verdicts.push(pk.verify(&m, &s, b""));
+        }
+        // a failing generator is reported by every randomised entry point in EVERY configuration (no fallback, no panic)
+        for n in [0usize, 16, 32] {
+            verdicts.push($m::try_keygen_with_rng(&mut Failing(n)).is_err());
+            verdicts.push(sk.try_sign_with_rng(&mut Failing(n), msg, b"").is_err());
+            verdicts.push(sk.try_hash_sign_with_rng(&mut Failing(n), msg, b"", &Ph::SHA512).is_err());
         }
         let pk3 = $m::PublicKey::try_from_bytes(pk.clone().into_bytes()).unwrap();
         let sk3 = $m::PrivateKey::try_from_bytes(sk.clone().into_bytes()).unwrap();
